@@ -416,7 +416,7 @@ def _b_sobieski_sg(a):
     return cls(dtype=_sob_dtype(a))
 
 
-_sob_args = st.fixed_dictionaries({"which": st.integers(0, 3), "complex": st.booleans()})
+_sob_args = st.fixed_dictionaries({"which": st.integers(0, 3), "complex": st.sampled_from([True, False, True])})
 reg(Recipe(
     "Sobieski", "discipline", tuple(_SOB), _sob_args, _b_sobieski, grammars=("JSON",), radius=0.02, weight=3,
     notes="grammars read from the JSON files of the class: JSON grammar only",
